@@ -794,6 +794,52 @@ mod verif_search {
     }
 }
 
+// ---------------------------------------------------------------------------------------------
+// NATIVE FAILING-INPUT SEARCH for the C13 clause "an admission that fails part-way consumes none"
+// (DhtCoreEngine::add_node; the deciding engine is the Verus unit `ipdiv`, item add_node): a node refused
+// by the routing table (full bucket) or by the region cap must leave the IP diversity counters as they
+// were, so another node with the same address that fits elsewhere is still admitted.
+// ---------------------------------------------------------------------------------------------
+#[cfg(test)]
+mod search_admission {
+    use super::*;
+
+    fn node_at(first_byte: u8, tag: u8, address: &str) -> NodeInfo {
+        let mut id = [0u8; 32];
+        id[0] = first_byte;
+        id[31] = tag;
+        let mut n = mk_node(id);
+        n.address = address.to_string();
+        n
+    }
+
+    #[test]
+    fn verif_search_c13_admission() {
+        let rt = tokio::runtime::Builder::new_current_thread().enable_all().build().expect("runtime");
+        rt.block_on(async {
+            for bucket_size in [8usize] {
+                let mut e = DhtCoreEngine::new_for_tests(NodeId::from_bytes([0u8; 32])).expect("engine");
+                // fill bucket 0 (ids whose first bit differs from the local id), one address per /16
+                for i in 0..bucket_size as u8 {
+                    let r = e.add_node(node_at(0x80, i + 1, &format!("10.{}.0.1:9000", i + 1))).await;
+                    assert!(r.is_ok(), "setup: node {} must be admitted: {:?}", i, r);
+                }
+                // a 9th node for the same bucket is refused by the routing table (bucket full)
+                let refused = e.add_node(node_at(0x80, 200, "10.100.0.1:9000")).await;
+                if refused.is_ok() {
+                    continue; // bucket was not full: nothing to observe in this configuration
+                }
+                // the refused admission must have consumed nothing: the same address, offered by a node that
+                // fits into another bucket, is still admitted (per-IP limit is 1 at this network size)
+                let second = e.add_node(node_at(0x40, 1, "10.100.0.1:9000")).await;
+                if let Err(err) = second {
+                    panic!("VERIF-SEARCH-HIT C13/engine/an_admission_that_fails_part_way_returns_its_ip_diversity_slots history=[8 nodes fill bucket 0; node 10.100.0.1 refused by the full bucket; another node with address 10.100.0.1 for bucket 1 -> {}]", err);
+                }
+            }
+        });
+    }
+}
+
 // Native replay slot: `cargo kani playback` compiles the crate with cfg(test)+cfg(kani);
 // the driver writes the generated concrete-playback unit test here before running it.
 #[cfg(test)]
